@@ -131,7 +131,8 @@ AccFails(sol) ==
   ELSE IF sol.acc \in {"inf", "-inf"} THEN {"Accuracy"}
   ELSE IF QClose(sol.acc, sminD, QMul(QPow2(-38), sminD)) THEN {} ELSE {"Accuracy"}
 
-Sn0 == [before |-> 0, enditers |-> 0, stops |-> 0, new |-> <<>>, stopsol |-> <<>>, last |-> <<>>, lost |-> "none", lastref |-> FALSE]
+Sn0 == [before |-> 0, enditers |-> 0, stops |-> 0, new |-> <<>>, stopsol |-> <<>>, last |-> <<>>, lost |-> "none", lastref |-> FALSE, locmin |-> "none"]
+(* locmin: smallest value the objective returned to the local refinement of the current call ("none": no such evaluation yet) *)
 (* lastref: the solution left by the last call was a refined one (an observation must then be judged as refined, too) *)
 (* sn.lost - what the code does after a contained failure (a deliberate deviation, modelled rather than idealised): the    *)
 (* interval popped for the failed evaluation is NOT put back into the queue, so it cannot be chosen until the next full    *)
@@ -177,7 +178,7 @@ EvSetParams(e) ==
 EvCall(e) ==
   /\ spc' = e.name /\ scall0' = strials /\ sfault' = FALSE /\ slocal' = 0
   /\ Note(e, {})
-  /\ sn' = [sn EXCEPT !.enditers = 0, !.stops = 0, !.new = <<>>, !.stopsol = <<>>]
+  /\ sn' = [sn EXCEPT !.enditers = 0, !.stops = 0, !.new = <<>>, !.stopsol = <<>>, !.locmin = "none"]
   /\ UNCHANGED <<scfg, spts, sM, sZ, sminD, strials, tstats>>
 
 EvFirstTrial(e) ==
@@ -240,7 +241,9 @@ EvLocal(e) ==
   /\ Note(e, (IF InBoxV(e.ylog) THEN {} ELSE {"RefInBox"})
              \cup (IF (spc = "solve" /\ scfg.refine) \/ spc = "localref" \/ Probing THEN {} ELSE {"UnexpectedEvaluation"})
              \cup (IF e.yafter = e.ylog THEN {} ELSE {"YLogged"}))
-  /\ UNCHANGED <<scfg, spts, sM, sZ, sminD, strials, spc, scall0, sfault, tstats, sn>>
+  /\ sn' = IF Probing \/ ~((spc = "solve" /\ scfg.refine) \/ spc = "localref") THEN sn
+           ELSE [sn EXCEPT !.locmin = IF @ = "none" THEN e.zlog ELSE QMin(@, e.zlog)]
+  /\ UNCHANGED <<scfg, spts, sM, sZ, sminD, strials, spc, scall0, sfault, tstats>>
 
 (* the end points' stored images: image(0) and image(1) - checked once per snapshot with items *)
 EndsFails(snp) ==
@@ -278,7 +281,12 @@ CertFails(e) ==
 (* C13, at the return of a public call: the right number of notifications was delivered during the call *)
 SolKey(sol) == <<sol.ntr, sol.nloc, sol.acc, sol.by, sol.bv>>
 NotifRetFails(e) ==
-  IF sfault \/ e.raised # "none" THEN {} ELSE
+  IF e.raised # "none" THEN {}
+  ELSE IF sfault
+  THEN \* a contained failure ends the iteration loop, not Solve: the listeners are still told once, with the solution Solve returns
+       (IF Hears("stop") /\ e.name = "solve" /\ sn.stops # 1 THEN {"NotifStopCount"} ELSE {})
+       \cup (IF Hears("stop") /\ e.name = "solve" /\ sn.stops = 1 /\ sn.stopsol # SolKey(e.sol) THEN {"NotifStopFinal"} ELSE {})
+  ELSE
      (IF Hears("before") /\ strials > 0 /\ sn.before # 1 THEN {"NotifBefore"} ELSE {})
 \cup (IF Hears("enditer") /\ e.name = "dgi" /\ sn.enditers # 1 THEN {"NotifEndIterCount"} ELSE {})
 \cup (IF Hears("enditer") /\ e.name = "solve" /\ sn.enditers # strials - scall0 THEN {"NotifEndIterCount"} ELSE {})
@@ -309,6 +317,9 @@ EvRet(e) ==
            \cup (IF solveok /\ e.printed_exc THEN {"NoIntExc"} ELSE {})
            \cup (IF e.name = "solve" /\ e.raised = "none" /\ ~e.ret_is_results THEN {"SolveReturnsResults"} ELSE {})
            \cup (IF g THEN {} ELSE NotifRetFails(e)) \cup CertFails(e)
+           \* the refined result is the best point the local method evaluated (Nelder-Mead returns its best vertex)
+           \cup (IF e.name \in {"solve", "localref"} /\ refined /\ ~sfault /\ e.raised = "none" /\ sn.locmin # "none" /\ e.sol.has
+                    /\ QLt(sn.locmin, e.sol.bv) THEN {"RefBestOfLocal"} ELSE {})
            \* the lists handed to OnEndIteration by earlier calls, read again after this call, still hold the trials of their own calls
            \cup (IF "kept_ok" \in DOMAIN e /\ ~e.kept_ok THEN {"NotifListKept"} ELSE {})
            \* an observation (GetResults only, possibly after other solvers acted) shows exactly what the last call left
